@@ -107,3 +107,63 @@ func Close[C ~chan T | ~chan<- T, T any](ch C) {
 	st.Closed = true
 	close(ch)
 }
+
+// SelectRecv is a blocking `select` whose clauses are all plain receives (`case <-ch:`): it blocks until one of
+// the channels is ready in the scheduler's model, takes (and drops) one value from the first ready one and
+// returns its index. nil channels are never ready. When several are ready the lowest index is taken (Go picks
+// one at random: the model explores one of the legal choices, never an illegal one).
+func SelectRecv(chs ...any) int {
+	t := Cur()
+	if t == nil {
+		cases := make([]reflect.SelectCase, len(chs))
+		for i, ch := range chs {
+			cases[i] = reflect.SelectCase{Dir: reflect.SelectRecv, Chan: reflect.ValueOf(ch)}
+		}
+		i, _, _ := reflect.Select(cases)
+
+		return i
+	}
+	if t.Aborting() {
+		return 0
+	}
+	type one struct {
+		v  reflect.Value
+		st *ChanState
+	}
+	cs := make([]one, len(chs))
+	for i, ch := range chs {
+		v := reflect.ValueOf(ch)
+		cs[i].v = v
+		if v.IsValid() && v.Kind() == reflect.Chan && !v.IsNil() {
+			cs[i].st = t.c.Chan(v.Pointer(), ch)
+		}
+	}
+	ready := func(o one) bool {
+		return o.st != nil && (o.st.Closed || o.v.Len() > 0 || o.st.Handoffs > 0)
+	}
+	t.Point(Op{Kind: "select-recv", Enabled: func() bool {
+		for _, o := range cs {
+			if ready(o) {
+				return true
+			}
+		}
+
+		return false
+	}})
+	if t.Aborting() {
+		return 0
+	}
+	for i, o := range cs {
+		if !ready(o) {
+			continue
+		}
+		if !o.st.Closed && o.v.Len() == 0 && o.st.Handoffs > 0 {
+			o.st.Handoffs--
+		}
+		o.v.Recv()
+
+		return i
+	}
+
+	return 0
+}
